@@ -37,10 +37,12 @@ type validator struct {
 	issues  []Issue
 	perRule map[string]int
 	// where each instruction lives
-	fnOf   []*Function // per instruction index: enclosing function (nil = module scope)
-	blkOf  []*Block
-	posIn  []int // position inside its block
-	shader bool
+	fnOf    []*Function // per instruction index: enclosing function (nil = module scope)
+	blkOf   []*Block
+	posIn   []int // position inside its block
+	shader  bool
+	depth   int
+	curInst int
 }
 
 const maxPerRule = 25
@@ -60,19 +62,20 @@ func Validate(m *Module) []Issue {
 	v.m.unchk = map[string]int{}
 	v.shader = m.caps[1]
 	v.locate()
-	v.header()
-	v.layout()
-	v.ids()
-	v.typesAndConstants()
-	v.functions()
+	v.guard("header", v.header)
+	v.guard("layout", v.layout)
+	v.guard("ids", v.ids)
+	v.guard("types", v.typesAndConstants)
+	v.guard("functions", v.functions)
 	for _, f := range m.funcs {
-		v.cfg(f)
-		v.ssa(f)
+		f := f
+		v.guard("cfg", func() { v.cfg(f) })
+		v.guard("ssa", func() { v.ssa(f) })
 	}
-	v.relations()
-	v.decorations()
-	v.entryPoints()
-	v.capabilities()
+	v.guard("relations", v.relations)
+	v.guard("decorations", v.decorations)
+	v.guard("entrypoints", v.entryPoints)
+	v.guard("capabilities", v.capabilities)
 	sort.SliceStable(v.issues, func(i, j int) bool {
 		a, b := v.issues[i], v.issues[j]
 		if a.Inst != b.Inst {
@@ -84,6 +87,21 @@ func Validate(m *Module) []Issue {
 		return a.Msg < b.Msg
 	})
 	return v.issues
+}
+
+var rMalformed = rule("inst.malformed", "an instruction (or module part) is so ill-formed that a rule could not be evaluated; the root cause is normally reported by id.kind / type.operand / inst.operands")
+
+// guard runs one pass; a Go run-time failure inside it (only possible on modules whose operands
+// have the wrong class) becomes an issue instead of a crash.
+func (v *validator) guard(pass string, f func()) {
+	defer func() {
+		if r := recover(); r != nil {
+			v.depth = 0
+			v.add(rMalformed, v.curInst, "pass %s stopped: %v", pass, r)
+		}
+	}()
+	v.curInst = -1
+	f()
 }
 
 func (v *validator) locate() {
